@@ -2,6 +2,7 @@ package link_solicit
 
 import (
 	"bytes"
+	"encoding/binary"
 	"slices"
 
 	"github.com/aperturerobotics/bifrost/peer"
@@ -36,10 +37,14 @@ func ComputeSessionID(peerA, peerB peer.ID) []byte {
 	return sum[:HashSize]
 }
 
-// ComputeProtocolHash returns BLAKE3(session_id || protocol_id || context).
+// ComputeProtocolHash returns BLAKE3(session_id || uvarint(len(protocol_id)) || protocol_id || context).
+//
+// The protocol ID is length-prefixed so that the boundary between the protocol
+// ID and the context is part of the hash input.
 func ComputeProtocolHash(sessionID []byte, protocolID protocol.ID, context []byte) []byte {
 	h := blake3.New()
 	h.Write(sessionID)
+	h.Write(binary.AppendUvarint(nil, uint64(len(protocolID))))
 	h.Write([]byte(protocolID))
 	h.Write(context)
 
